@@ -24,14 +24,30 @@ RULE = ("media: gens_c11 tensors (generic SPD 6x6 with eigenvalues in [1,500], a
         "indices) in cubic/hexagonal/tetragonal/orthorhombic/monoclinic/triclinic cells or without a cell; m, n default, "
         "the six string pairs, or a rotated perpendicular pair of unit vectors; field points r in [0.3,45], >= 0.05 rad "
         "from the cut, generic and exactly on the frame's axes/diagonals, single points and arrays, lists and arrays.  "
+        "Clause decades: ONE array of points r = mantissa 10^k L, k = -6 .. 6 (both ends present in 3/4 of the cases), on 1-3 "
+        "rays, overall length unit L = 10^-12 .. 10^6 (1 in half of the cases; the Burgers vector in the same unit in half of "
+        "the others), solver argument tol default / 1e-8 / 1e-4 / 1e-5 / 1e-6 / 1e-10.  Clause history: the same problems, "
+        "identity orientation (none, or transform / axes = unit matrix with non-unit rows) in a third of the cases, every "
+        "array-valued argument in a drawn form (float64, strided view, Fortran / reversed strides, read-only, list, tuple), "
+        "followed by 2-6 operations of the CALLER on its own objects (ElasticConstants re-defined through every setter and four "
+        "crystal-system methods, arrays / lists overwritten in place, Box re-defined through its setters), other solutions built "
+        "from the same objects, evaluations elsewhere, the position array or the returned arrays overwritten.  "
         "Non-trivial: Burgers vector with at least two non-zero components in the (m,n,xi) frame AND a non-identity "
-        "orientation AND non-default m, n (AND the solver accepted the problem).")
+        "orientation AND non-default m, n (AND the solver accepted the problem); history: at least one object the solver was "
+        "handed has actually been modified afterwards.")
 ASSUMPTIONS = ["numpy linear algebra (eig, inv, einsum) is correct",
                "ElasticConstants(Cij=...) stores the matrix handed over and .Cij returns it (decided by C11)",
                "atomman.Box(vects=...) stores the cell handed over (decided by C01)",
                "sign convention of the code under judgement and of Hirth & Lothe: the displacement jumps by +b from y = 0- to "
                "y = 0+ on the half-plane x < 0 of the (m, n) plane",
-               "numbers are of Angstrom / GPa (or eV/A^3) scale: the solver's 'is it real' test is an absolute 1e-8",
+               "stiffness numbers are of GPa (or eV/A^3) scale: the solver's 'is it real' test on K_tensor is an absolute tol "
+               "(1e-8), so Stroh REFUSES ('Solution not real') every medium given in Pa (probed: 50 of 50 cubic media x 1e9, "
+               "x 1e11, x 1e-12) - a refusal, hence outside 'that the solver accepts'; lengths (field points, Burgers vector) are "
+               "of Angstrom scale except in the decades clause, which spans 1e-18 .. 1e+12; a field array of complex dtype whose "
+               "imaginary parts are rounding residue (<= 1e-9 of the largest real part) counts as real",
+               "the solver argument tol (decades clause): Burgers components below tol of the largest are dropped from the problem "
+               "that is judged (within 2 % of the threshold: not judged); tol > 1e-8 with Stroh roots closer than 0.05: header "
+               "only; tol < 1e-8: a refusal by the self-checks is counted whatever the root separation",
                "ElasticConstants.transform / the Cij setter zero entries below 1e-8 / 1e-9 of the largest and the solver "
                "zeroes Burgers components below 1e-8 of the largest (documented tol): no comparison against my own rotated "
                "tensor is tighter than 3e-8 max|C|",
@@ -50,10 +66,14 @@ LEVEL_TEXT = ("Generated-input exploration of Stroh, IsotropicVolterraDislocatio
               "only to within the class's 1e-4 acceptance band), all Burgers characters, orientations by rotation or Miller "
               "indices, all m/n choices and field points off the line: Burgers jump and continuity, strain = sym grad u and "
               "div sigma = 0 by 4th-order differences, Hooke's law, 1/r scaling, energy tensor against the Barnett-Lothe "
-              "integral and the slip-plane traction, covariance, and the isotropic limit against textbook closed forms.")
+              "integral and the slip-plane traction, covariance, and the isotropic limit against textbook closed forms; point arrays "
+              "spanning 12 decades in r in one call (any length unit, other tol values) judged point by point; caller-side histories "
+              "(inputs untouched by the solver, outputs untouched by whatever the caller later does to the objects it handed over).")
 TECHNIQUE = ("finite-difference compatibility and equilibrium with derived truncation/rounding bounds, Burgers circuit limit, "
              "own tensor rotation, Barnett-Lothe angular integral for the energy tensor, slip-plane traction identity, "
-             "rotation covariance (metamorphic), Hirth-Lothe closed forms, linear convergence of Stroh to the isotropic limit")
+             "rotation covariance (metamorphic), Hirth-Lothe closed forms, linear convergence of Stroh to the isotropic limit, "
+             "per-point relative comparison of array against single-point evaluation over 12 decades, model-free output invariance "
+             "under caller-side mutation histories")
 WALL = {'quick': 64, 'thorough': 600}
 
 EPS = 2.220446049250313e-16
@@ -102,8 +122,18 @@ def setup(prob):
     S.T = g.expected_transform(prob, S.m, S.n)
     bs = np.array(prob['bsol'], dtype=float)
     S.b = bs[0] * S.m + bs[1] * S.n + bs[2] * S.xi          # Burgers vector in the solution's Cartesian frame
-    S.bn = float(np.linalg.norm(S.b))
     S.b_cart = S.T.T @ S.b                                  # the same vector in the crystal's Cartesian frame
+    # the solvers' documented rounding argument tol (decades clause; default 1e-8 everywhere else): Burgers components below
+    # tol of the largest are zeroed in the solution frame - the problem that is solved, and judged, is the one with those
+    # components removed; a component within 2 % of the threshold may go either way (bslack: such a case is not judged)
+    S.tol = float(prob['tol']) if prob.get('tol') is not None else 1e-8
+    S.bslack = 0.0
+    if S.tol > 1e-8:
+        ratio = np.abs(S.b) / np.abs(S.b).max()
+        band = (ratio > 0.98 * S.tol) & (ratio < 1.02 * S.tol)
+        S.bslack = float(np.abs(S.b)[band].max()) if band.any() else 0.0
+        S.b = np.where((ratio < S.tol) & ~band, 0.0, S.b)
+    S.bn = float(np.linalg.norm(S.b))
     S.C6 = g.stiffness(prob)
     C6s = el.rotate_voigt(S.C6, S.T)
     S.C6s = (C6s + C6s.T) / 2                               # medium in the solution frame
@@ -148,6 +178,8 @@ def solver_args(prob, S):
     import atomman as am
     conv = _conv(prob['aslist'])
     kw = {}
+    if prob.get('tol') is not None:
+        kw['tol'] = float(prob['tol'])
     mn = prob['mn']
     if mn['kind'] == 'str':
         how = mn.get('pass', 'ss')
@@ -178,13 +210,14 @@ def solver_args(prob, S):
 BAND_LO, BAND_HI = 0.98e-4, 1.02e-4     # my deviation and the solver's agree to rounding; 2 % leaves the edge itself open
 
 
-def call_solver(solver, C6, b, kw, iso_medium, gap=None, dev=0.0):
+def call_solver(solver, C6, b, kw, iso_medium, gap=None, dev=0.0, Cobj=None):
     """returns the solution object, or None for a documented refusal.  iso_medium: exactly isotropic; dev: iso_deviation of
-    the medium (0 for exactly isotropic): the isotropic class has to take every medium with dev <= 1e-4"""
+    the medium (0 for exactly isotropic): the isotropic class has to take every medium with dev <= 1e-4.  Cobj: the caller's
+    ElasticConstants object (history clause), else a fresh one is built from C6"""
     import atomman as am
     from atomman.defect import Stroh, IsotropicVolterraDislocation, solve_volterra_dislocation
     fn = {'stroh': Stroh, 'iso': IsotropicVolterraDislocation, 'auto': solve_volterra_dislocation}[solver]
-    C = am.ElasticConstants(Cij=np.array(C6, dtype=float))
+    C = am.ElasticConstants(Cij=np.array(C6, dtype=float)) if Cobj is None else Cobj
     try:
         return fn(C, b, **kw)
     except ValueError as e:
@@ -199,8 +232,10 @@ def call_solver(solver, C6, b, kw, iso_medium, gap=None, dev=0.0):
         # documented answer to (nearly) coincident roots, where the eigenvector expansion breaks down.  On the unchanged
         # tree every refusal has gap <= 1e-2 (RESULTS.txt); a refusal of well separated roots is a solver that does not
         # solve problems "away from eigenvalue degeneracy".
-        require(gap is None or gap < GAP_REFUSAL, lambda: '%s refused (%s) a positive-definite problem whose roots p are separated '
-                'by %.3g' % (solver, msg, gap))
+        # With tol below its default the self-checks (absolute tol on the eigenvector identities, absolute tol on Im K) are the
+        # caller's own, stricter demand: a refusal is then the documented answer whatever the separation of the roots.
+        require(gap is None or gap < GAP_REFUSAL or kw.get('tol', 1e-8) < 1e-8,
+                lambda: '%s refused (%s) a positive-definite problem whose roots p are separated by %.3g' % (solver, msg, gap))
         return None
 
 
@@ -267,9 +302,10 @@ def check_header(sol, S, prob):
     T = np.asarray(sol.transform, dtype=float)
     require(T.shape == (3, 3), lambda: '.transform has shape %r' % (T.shape,))
     close(np.abs(T - S.T).max(), 1e-9, 'hdr_T', lambda: '.transform\n%r\nagainst my own orientation matrix\n%r' % (T, S.T))
+    require(float(sol.tol) == S.tol, lambda: '.tol = %r, handed over (or default) %r' % (sol.tol, S.tol))
     bg = np.asarray(sol.burgers, dtype=float)
     require(bg.shape == (3,), lambda: '.burgers has shape %r' % (bg.shape,))
-    close(np.abs(bg - S.b).max(), 2e-8 * S.bn, 'hdr_b', lambda: '.burgers = %r, expected transform . b = %r' % (bg, S.b))
+    close(np.abs(bg - S.b).max(), 2e-8 * S.bn + 1.0001 * S.bslack, 'hdr_b', lambda: '.burgers = %r, expected transform . b = %r' % (bg, S.b))
     Cg = np.asarray(sol.C.Cij, dtype=float)
     close(np.abs(Cg - S.C6s).max(), TOL_C * S.cmax, 'hdr_C',
           lambda: '.C.Cij against my own %s' % ('rotated tensor' if S.exact or not S.iso else 'isotropic (Hill) normalisation of the input'))
@@ -694,6 +730,463 @@ def oracle_covariance(case):
     return labels
 
 
+# ----------------------------------------------------------------------------- clause: decades
+
+def _rel(a, b, sc):
+    """largest |a - b| per leading index, divided by that index's own scale"""
+    a, b = np.asarray(a, dtype=float), np.asarray(b, dtype=float)
+    d = np.abs(a - b).reshape(len(a), -1).max(axis=1)
+    return d / np.asarray(sc, dtype=float)
+
+
+def oracle_decades(case):
+    """ONE call of every field for an array of points whose distances from the line span up to 12 decades (times an overall
+    length unit): every comparison is made point by point, relative to that point's own magnitude - a point in the far field
+    is judged as strictly as one next to the core"""
+    prob = case['prob']
+    S, sol, labels, judge = begin(prob)
+    pts = g.decade_points(case)
+    rs = np.array([e[2] for e in pts])
+    span = math.log10(rs.max() / rs.min())
+    labels.add('span>=8' if span >= 8 else 'span4..8' if span >= 4 else 'span<4')
+    labels.add('lscale' if case['lk'] else 'lscale0')
+    if case['lk'] == -10:
+        labels.add('lscale_SI')
+    if prob.get('bscaled'):
+        labels.add('b_scaled')
+    tol = prob.get('tol')
+    labels.add('tol_default' if tol is None else 'tol_%g' % tol)
+    if tol is not None and tol > 1e-8:
+        labels.add('tol_loose')
+    if not judge:
+        if tol is not None and tol < 1e-8 and 'refusal' in labels:
+            labels.add('refusal_tight_tol')
+        return labels
+    check_header(sol, S, prob)
+    if S.bslack:
+        labels.discard('nt')
+        labels.add('b_component_on_tol_threshold')         # zeroed or kept: either is what "below tol" allows
+        return labels
+    if S.tol > 1e-8 and not S.iso and S.gap < 0.05:
+        # a looser tol lets the self-checks pass closer to a degenerate eigenproblem than the (1 + 1/gap) model of the
+        # tolerances was established for (unchanged tree, default tol: accepted problems reach gap 1.3e-3): header only
+        labels.discard('nt')
+        labels.add('loose_tol_near_degenerate')
+        return labels
+    pl = case['ptlist']
+    loc = np.array([e[3] for e in pts])
+    P = positions(S, loc)
+    n = len(P)
+    Cg = np.asarray(sol.C.Cij, dtype=float)
+    C4 = el.voigt_to_tensor(Cg)
+    # ---- every field: ONE call for the whole array, and one call per point
+    arr, one = {}, {}
+    Pin = P.copy()
+    for name in ('displacement', 'strain', 'stress'):
+        arr[name] = field(sol, name, Pin, pl)
+        one[name] = np.array([field(sol, name, P[i], pl) for i in range(n)])
+    require(np.array_equal(Pin, P), 'the position array was modified by the evaluation')
+    gs = np.array([geom(S, l)[1] for l in loc])
+    # per-point scales: the point's own field magnitude (never below the bare b / 2 pi r for the strain)
+    esc = np.maximum(np.abs(one['strain']).reshape(n, -1).max(axis=1), S.bn / (2 * math.pi * rs))
+    ssc = np.abs(one['stress']).reshape(n, -1).max(axis=1)
+    require(bool(np.all(ssc > 0)), lambda: 'stress vanishes identically at r = %r' % (rs[ssc <= 0].tolist(),))
+    # |u| <~ |b| |log eta| / 2 pi, |log eta| <= |ln r| + pi
+    usc = S.bn * (1.0 + np.abs(np.log(rs)))
+    for name, sc in (('displacement', usc), ('strain', esc), ('stress', ssc)):
+        e = _rel(arr[name], one[name], sc)
+        i = int(np.argmax(e))
+        close(e[i], 1e-11 * S.amp, 'dec_single_' + name,
+              lambda: '%s: array call over r = %.3g .. %.3g differs from the single-point call at r = %.3g (relative to that point\'s own magnitude)'
+              % (name, rs.min(), rs.max(), rs[i]))
+    E, Sg, U = arr['strain'], arr['stress'], arr['displacement']
+    # ---- Hooke's law, point by point
+    hooke = np.einsum('ijkl,nkl->nij', C4, E)
+    e = _rel(Sg, hooke, 9 * S.cmax * esc)
+    i = int(np.argmax(e))
+    close(e[i], TOL_HOOKE * S.amp, 'dec_hooke', lambda: 'stress at r = %.3g (array over r = %.3g .. %.3g) is not C:strain:\nstress\n%r\nC:strain\n%r'
+          % (rs[i], rs.min(), rs.max(), Sg[i], hooke[i]))
+    for name, F, sc in (('strain', E, esc), ('stress', Sg, ssc)):
+        e = _rel(F, np.transpose(F, (0, 2, 1)), sc)
+        close(e.max(), 1e-12 * S.amp, 'dec_sym_' + name, lambda: '%s not symmetric' % name)
+    # ---- 1/r along every ray: r F(r d) is the same tensor for all r; u(r d) - u(r0 d) = ln(r / r0) w with ONE vector w
+    rays = {}
+    for idx, (i, j, r, l) in enumerate(pts):
+        rays.setdefault(j, []).append(idx)
+    w_all = []
+    for j, ids in sorted(rays.items()):
+        i0 = ids[0]
+        for name, F, sc in (('strain', E, esc), ('stress', Sg, ssc)):
+            for i in ids[1:]:
+                err = float(np.abs(F[i] * rs[i] - F[i0] * rs[i0]).max()) / (sc[i] * rs[i])
+                close(err, TOL_SCALE * S.amp * gs[i], 'dec_scale_' + name,
+                      lambda: '%s does not fall off as 1/r along a ray: r = %.3g against r = %.3g (one array call)\n%r\n%r'
+                      % (name, rs[i], rs[i0], F[i] * rs[i], F[i0] * rs[i0]))
+        for i in ids[1:]:
+            lr = math.log(rs[i] / rs[i0])
+            if abs(lr) >= 0.69:
+                w_all.append((i, i0, (U[i] - U[i0]) / lr, gs[i] * (usc[i] + usc[i0]) / abs(lr)))
+    for (i, i0, w, amp_w) in w_all[1:]:
+        close(np.abs(w - w_all[0][2]).max(), 1e-11 * S.amp * (amp_w + w_all[0][3]), 'dec_log',
+              lambda: 'displacement: [u(r d) - u(r0 d)] / ln(r / r0) = %r for r = %.3g, r0 = %.3g, but %r for r = %.3g, r0 = %.3g'
+              % (w, rs[i], rs[i0], w_all[0][2], rs[w_all[0][0]], rs[w_all[0][1]]))
+    if len(w_all) >= 2:
+        labels.add('log_law')
+    # ---- isotropic class: the textbook closed forms at every point
+    if S.iso:
+        ref = vr.iso_reference(S.mu, S.nu, float(S.b @ S.m), float(S.b @ S.xi), S.m, S.n, S.xi, P)
+        for name, sc in (('strain', esc), ('stress', ssc)):
+            e = _rel(arr[name], ref[name], sc)
+            i = int(np.argmax(e))
+            close(e[i], 1e-11, 'dec_iso_' + name, lambda: '%s at r = %.3g differs from the Hirth-Lothe closed form' % (name, rs[i]))
+        d = U - ref['disp']
+        close(np.abs(d - d[0]).max(), 1e-11 * (usc.max()), 'dec_iso_disp', 'displacement differs from the Hirth-Lothe closed form by more than a constant')
+        labels.add('closed_form')
+    # ---- elasticity itself at one of the points (same comparisons and tolerances as the kinematics clause)
+    k = case['fd'] % n
+    x, r = P[k], rs[k]
+    _, gg, tol_u, tol_s = fd_tols(S, loc[k])
+    G, _ = vr.fd_gradient(lambda q: field(sol, 'displacement', q), x, H_REL * r)
+    Efd = (G + G.T) / 2
+    close(np.abs(Efd - E[k]).max(), tol_u * esc[k], 'dec_fd_strain',
+          lambda: 'strain at r = %.3g is not the symmetric gradient of the displacement:\nstrain\n%r\nsym grad u\n%r' % (r, E[k], Efd))
+    Gs, _ = vr.fd_gradient(lambda q: field(sol, 'stress', q), x, H_REL * r)
+    div = np.einsum('ijj->i', Gs)
+    close(np.abs(div).max(), tol_s * ssc[k] / r * gg, 'dec_fd_div', lambda: 'div(stress) at r = %.3g = %r (|stress| %.3g)' % (r, div, ssc[k]))
+    labels.add('fd_far' if r >= 1e3 * g.pow10(case['lk']) else 'fd_near' if r <= 1e-3 * g.pow10(case['lk']) else 'fd_mid')
+    # ---- Burgers vector = jump across the cut at the smallest and at the largest radius
+    for r in (rs.min(), rs.max()):
+        p0 = -r * S.m
+        up = field(sol, 'displacement', p0 + DELTA * r * S.n, pl)
+        um = field(sol, 'displacement', p0 - DELTA * r * S.n, pl)
+        close(np.abs(up - um - S.b).max(), TOL_JUMP * S.bn, 'dec_jump', lambda: 'u(x=-%g, y=0+) - u(x=-%g, y=0-) = %r, Burgers vector %r' % (r, r, up - um, S.b))
+    labels.add('ptlist' if pl else 'ptarray')
+    labels.add('npts>=6' if n >= 6 else 'npts<6')
+    return labels
+
+
+# ----------------------------------------------------------------------------- clause: history
+
+ARGS = ('b', 'm', 'n', 'T', 'uvw', 'hkl')                    # array-valued arguments, in the order of case['forms']
+FORM_NAMES = ('f8', 'strided', 'fortran_or_reversed', 'readonly', 'list', 'tuple')
+HIST_KEY_MN = 'C12:history:m-n-array-argument-aliased'
+
+
+def as_form(a, form, integer=False):
+    """the values a in one of the documented array-like forms (see gens_c12, caller-side histories)"""
+    a = np.array(a, dtype=int if integer else float)
+    if form == 0:
+        return a.copy()
+    if form == 1:
+        if a.ndim == 1:
+            v = np.zeros(2 * len(a) + 1, dtype=a.dtype)[1::2]
+        else:
+            v = np.zeros((a.shape[0], 2 * a.shape[1]), dtype=a.dtype)[:, ::2]
+        v[...] = a
+        return v
+    if form == 2:
+        if a.ndim == 1:
+            v = np.zeros(len(a), dtype=a.dtype)[::-1]
+            v[...] = a
+            return v
+        return np.asfortranarray(a)
+    if form == 3:
+        a = a.copy()
+        a.setflags(write=False)
+        return a
+    if form == 4:
+        return a.tolist()
+    return tuple(tuple(r) for r in a.tolist()) if a.ndim == 2 else tuple(a.tolist())
+
+
+def overwrite(obj, new):
+    """the caller overwrites its own array / list in place; False when the object is immutable (tuple, read-only array, str)"""
+    if isinstance(obj, np.ndarray):
+        if not obj.flags.writeable:
+            return False
+        obj[...] = new
+        return True
+    if isinstance(obj, list):
+        new = np.asarray(new).tolist()
+        for i, v in enumerate(new):
+            if isinstance(obj[i], list):
+                obj[i][:] = v
+            else:
+                obj[i] = v
+        return True
+    return False
+
+
+def _perm_voigt(C6, k):
+    p = g._PERMS[k % 6]
+    idx = [int(el.VI[p[i], p[j]]) for (i, j) in el.PAIRS]
+    out = np.empty((6, 6))
+    out[np.ix_(idx, idx)] = C6
+    return out
+
+
+def redefine_C(C, how, f, perm, C6, cmax):
+    """the caller re-uses its ElasticConstants object for another medium, through one of the public ways of defining it"""
+    new = f * _perm_voigt(C6, perm)
+    a = f * cmax
+    if how == 'Cij':
+        C.Cij = new
+    elif how == 'Cijkl':
+        C.Cijkl = el.voigt_to_tensor(new)
+    elif how == 'Sij':
+        C.Sij = np.linalg.inv(new)
+    elif how == 'Cij9':
+        C.Cij9 = new[np.ix_([0, 1, 2, 3, 4, 5, 3, 4, 5], [0, 1, 2, 3, 4, 5, 3, 4, 5])]
+    elif how == 'Sijkl':
+        C.Sijkl = el.compliance_voigt_to_tensor(np.linalg.inv(new))
+    elif how == 'cubic':
+        C.cubic(C11=a, C12=0.45 * a, C44=0.3 * a)
+    elif how == 'isotropic':
+        C.isotropic(E=a, nu=0.29)
+    elif how == 'hexagonal':
+        C.hexagonal(C11=a, C33=1.1 * a, C12=0.4 * a, C13=0.35 * a, C44=0.25 * a)
+    elif how == 'orthorhombic':
+        C.orthorhombic(C11=a, C22=1.2 * a, C33=0.9 * a, C12=0.4 * a, C13=0.35 * a, C23=0.3 * a, C44=0.25 * a, C55=0.2 * a, C66=0.3 * a)
+    else:
+        raise KeyError(how)
+
+
+def redefine_box(box, how, f, V):
+    W = f * np.roll(V, 1, axis=1)[[1, 2, 0]]                 # another right-handed cell
+    if how == 'vects':
+        box.vects = W
+    elif how == 'set_vectors':
+        box.set_vectors(avect=W[0], bvect=W[1], cvect=W[2])
+    elif how == 'set_abc':
+        box.set_abc(a=3.1 * f, b=4.2 * f, c=5.3 * f, alpha=80.0, beta=95.0, gamma=107.0)
+    elif how == 'set_lengths':
+        box.set_lengths(lx=3.1 * f, ly=4.2 * f, lz=5.3 * f, xy=0.4 * f, xz=-0.3 * f, yz=0.7 * f)
+    elif how == 'origin':
+        box.origin = [1.5 * f, -2.0, 0.25]
+    else:
+        raise KeyError(how)
+
+
+def read_outputs(sol, P, seed):
+    """every output of a solution, read in an order fixed by seed.  Returns {name: (object returned, float/complex copy)}"""
+    names = ['m', 'n', 'ξ', 'transform', 'burgers', 'C', 'tol', 'K_tensor', 'K_coeff', 'preln', 'characterangle',
+             'displacement', 'strain', 'stress', 'stress_single']
+    names += ['mu', 'nu'] if type(sol).__name__ == 'IsotropicVolterraDislocation' else ['p', 'A', 'L', 'k']
+    order = np.random.default_rng(seed).permutation(len(names))
+    out = {}
+    for i in order:
+        nm = names[int(i)]
+        if nm in ('displacement', 'strain', 'stress'):
+            raw = getattr(sol, nm)(P)
+        elif nm == 'stress_single':
+            raw = sol.stress(P[-1])
+        elif nm == 'characterangle':
+            raw = sol.characterangle()
+        elif nm == 'C':
+            raw = sol.C.Cij
+        else:
+            raw = getattr(sol, nm)
+        out[nm] = (raw, np.array(raw).copy())
+    return out
+
+
+def same_outputs(base, now, what):
+    for nm in sorted(base):
+        a, b = base[nm][1], now[nm][1]
+        require(a.shape == b.shape and a.dtype.kind == b.dtype.kind, lambda: '%s: %s changed shape / type: %r %s -> %r %s' % (what, nm, a.shape, a.dtype, b.shape, b.dtype))
+        sc = float(np.abs(a).max()) if a.size else 0.0
+        d = float(np.abs(a - b).max()) if a.size else 0.0
+        require(d <= 1e-13 * sc, lambda: '%s: output %s of the solution changed by %.3g (relative %.3g)\nbefore\n%r\nnow\n%r'
+                % (what, nm, d, d / sc if sc else float('inf'), a, b))
+
+
+def oracle_history(case):
+    """the solution is a value: nothing the caller does afterwards with the objects it handed over, and nothing that is done
+    with the solution (evaluating it, reading it in any order, building other solutions), changes any of its outputs; and
+    solving / evaluating leaves the caller's objects as they were"""
+    import atomman as am
+    from atomman.defect import Stroh, IsotropicVolterraDislocation, solve_volterra_dislocation
+    prob = case['prob']
+    S = setup(prob)
+    labels = g.labels_of(prob)
+    forms = dict(zip(ARGS, case['forms']))
+    b0, kw = solver_args(prob, S)
+    # ---- the caller's objects
+    C = am.ElasticConstants(Cij=np.array(S.C6, dtype=float))
+    held = {'b': as_form(b0, forms['b'])}
+    for key, arg in (('m', 'm'), ('n', 'n')):
+        if arg in kw and not isinstance(kw[arg], str):
+            held[key] = kw[arg] = as_form(kw[arg], forms[key])
+    for arg in ('transform', 'axes'):
+        if arg in kw:
+            held['T'] = kw[arg] = as_form(kw[arg], forms['T'])
+    if 'ξ_uvw' in kw:
+        held['uvw'] = kw['ξ_uvw'] = as_form(kw['ξ_uvw'], forms['uvw'], integer=True)
+        held['hkl'] = kw['slip_hkl'] = as_form(kw['slip_hkl'], forms['hkl'], integer=True)
+    box = kw.get('box')
+    for key in held:
+        labels.add('form_%s' % FORM_NAMES[forms[key]])
+    ident = bool(np.array_equal(S.T, np.eye(3)))
+    if ident:
+        labels.add('identity_orientation')
+
+    def snapshot():
+        sn = {key: np.array(v).copy() for key, v in held.items()}
+        sn['C'] = np.array(C.Cij)
+        if box is not None:
+            sn['box'] = np.vstack([box.vects, box.origin])
+        return sn
+
+    def untouched(sn, when):
+        now = snapshot()
+        for key in sorted(sn):
+            require(sn[key].shape == now[key].shape and np.array_equal(sn[key], now[key]),
+                    lambda: '%s changed the caller\'s %s:\nbefore\n%r\nafter\n%r' % (when, key, sn[key], now[key]))
+
+    # ---- solve
+    sn = snapshot()
+    sol = call_solver(prob['solver'], S.C6, held['b'], kw, S.exact, None if S.iso else S.gap, S.dev, Cobj=C)
+    untouched(sn, 'solving')
+    if sol is None:
+        labels.add('refusal')
+        return labels
+    labels.add('accepted')
+    name = type(sol).__name__
+    if prob['solver'] == 'auto' and not S.exact and name == 'IsotropicVolterraDislocation':
+        require(S.dev <= BAND_HI, lambda: 'solve_volterra_dislocation returned the isotropic class for a medium whose constants are '
+                '%.3g (relative) away from their isotropic average' % S.dev)
+        to_iso_mode(S)
+        labels.add('auto_fallback')
+    labels.add('answer_' + name)
+    # the answer is judged where the other clauses judge it (begin()): exact or accepted nearly isotropic media by the closed
+    # form in the slip plane, Stroh away from isotropy; the invariance below holds for every answer
+    judged = not (S.near and not S.iso) and not (S.iso and not S.exact and S.dev == g.BAND) and not ('auto_fallback' in labels and prob['bsol'][1] != 0.0)
+    P = positions(S, case['pts'])
+    Pin = P.copy()
+    if judged:
+        Cg = check_header(sol, S, prob)
+        E = field(sol, 'strain', Pin)
+        Sg = field(sol, 'stress', Pin)
+        hooke = np.einsum('ijkl,nkl->nij', el.voigt_to_tensor(Cg), E)
+        esc = max(float(np.abs(E).max()), S.bn / (2 * math.pi * min(math.hypot(l[0], l[1]) for l in case['pts'])))
+        close(np.abs(hooke - Sg).max(), TOL_HOOKE * S.amp * S.cmax * 9 * esc, 'hist_hooke', 'stress is not C:strain (first evaluation)')
+        K = np.asarray(sol.K_tensor, dtype=float)
+        tr = field(sol, 'stress', 2.0 * S.m) @ S.n
+        close(np.abs(tr - K @ S.b / (4 * math.pi)).max(), (1e-7 + 1e-10 * S.amp) * float(np.abs(K).max()) * S.bn / (4 * math.pi), 'hist_traction',
+              'traction on the slip plane at x = 2 is not K.b/(2 pi x) (first evaluation)')
+        labels.add('judged')
+    base = read_outputs(sol, Pin, case['order'])
+    untouched(sn, 'evaluating the solution')
+    require(np.array_equal(Pin, P), 'the position array was modified by the evaluation')
+    again = read_outputs(sol, Pin, case['order'] + 1)
+    same_outputs(base, again, 'reading the outputs a second time, in another order')
+
+    # ---- history
+    fns = {'stroh': Stroh, 'iso': IsotropicVolterraDislocation, 'auto': solve_volterra_dislocation}
+    pending = None
+    applied = set()
+    C6now = np.array(S.C6, dtype=float)
+    for k, op in enumerate(case['ops']):
+        kind = op['op']
+        what = 'operation %d (%s)' % (k, jshort(op))
+        labels.add('op_' + kind)
+        if kind == 'C':
+            redefine_C(C, op['how'], op['f'], op['perm'], C6now, S.cmax)
+            C6now = np.array(C.Cij)
+            applied.add('C')
+            labels.add('C_via_' + op['how'])
+            what += ': the caller re-defined the ElasticConstants object it had handed to the solver'
+        elif kind == 'arr':
+            keys = [a for a in ARGS + ('m', 'n') if a in held]
+            kind = keys[op['which'] % len(keys)]
+            labels.add('op_' + kind)
+            obj = held[kind]
+            old = np.array(obj).copy()
+            if kind in ('m', 'n'):
+                new = -old if op['f'] < 0 else np.roll(old, 1)
+                if np.array_equal(new, old):
+                    new = -old
+            elif kind in ('uvw', 'hkl'):
+                new = 2 * np.roll(old, 1)
+            elif kind == 'T':
+                new = op['f'] * np.roll(old, 1, axis=0)
+            else:
+                new = op['f'] * np.roll(old, 1)
+            if not overwrite(obj, new):
+                labels.add('op_on_immutable')
+                continue
+            applied.add(kind)
+            what += ': the caller overwrote, in place, the %s it had handed to the solver as %s' % (kind, FORM_NAMES[forms[kind]])
+            if kind in ('m', 'n') and isinstance(obj, np.ndarray):
+                # unchanged tree: a float64 ndarray m / n IS the solution's m / n (numpy.asarray, no copy): known finding,
+                # reported at the end of the case; the caller's array is put back so that the rest of the history is judged
+                try:
+                    same_outputs(base, read_outputs(sol, Pin, case['order'] + 2 + k), what)
+                except Violation as e:
+                    if np.shares_memory(obj, sol.m) or np.shares_memory(obj, sol.n):
+                        pending = pending or Violation(e.detail if hasattr(e, 'detail') else str(e), key=HIST_KEY_MN)
+                        overwrite(obj, old)
+                        applied.discard(kind)
+                        labels.add('mn_alias')
+                    else:
+                        raise
+        elif kind == 'box':
+            if box is None:
+                labels.add('op_without_object')
+                continue
+            redefine_box(box, op['how'], op['f'], g.box_vects(prob['orient']['box']))
+            applied.add('box')
+            what += ': the caller re-defined the Box it had handed to the solver'
+        elif kind == 'again':
+            fn = fns[prob['solver'] if op['solver'] == 'same' else op['solver']]
+            try:
+                other = fn(C, held['b'], **kw)
+                other.stress(Pin)
+                labels.add('again_solved')
+            except (ValueError, AssertionError):
+                labels.add('again_refused')                 # the overwritten arguments need not be a valid problem
+        elif kind == 'eval':
+            Q = positions(S, op['pts'])
+            for nm in ('displacement', 'strain', 'stress'):
+                field(sol, nm, Q, op['ptlist'])
+        elif kind == 'pos':
+            # the caller re-uses its position array for other points (1.5 times as far from the line, shifted along it),
+            # evaluates, and puts the first points back
+            Pin[...] = positions(S, [[1.5 * l[0], 1.5 * l[1], l[2] + 1.0] for l in case['pts']])[::-1]
+            for nm in ('displacement', 'strain', 'stress'):
+                require(np.array_equal(np.array(base[nm][0]), base[nm][1]), lambda: '%s: the array returned by %s() earlier changed when the caller '
+                        'overwrote the position array' % (what, nm))
+                a, b = field(sol, nm, Pin), field(sol, nm, Pin.copy())
+                require(np.array_equal(a, b), lambda: '%s: %s() of a position array that was overwritten in place differs from %s() of a fresh '
+                        'array with the same values' % (what, nm, nm))
+            Pin[...] = P
+        elif kind == 'out':
+            for nm in sorted(base):
+                raw = base[nm][0]
+                if isinstance(raw, np.ndarray) and nm not in ('m', 'n', 'ξ', 'transform', 'burgers') and raw.flags.writeable:
+                    raw[...] = 0
+            base = {nm: (v[1].copy(), v[1]) for nm, v in base.items()}
+            what += ': the caller overwrote the arrays that the solution had returned (fields, K_tensor, p, A, L, k, C.Cij)'
+        else:
+            raise KeyError(kind)
+        same_outputs(base, read_outputs(sol, Pin, case['order'] + 2 + k), 'after ' + what)
+    for a in applied:
+        labels.add('applied_' + a)
+    if applied:
+        labels.add('nt')
+    if 'C' in applied and name == 'Stroh':
+        labels.add('stroh_C_redefined')
+        if ident:
+            labels.add('identity_stroh_C_redefined')
+    if pending is not None:
+        raise pending
+    return labels
+
+
+def jshort(op):
+    return ', '.join('%s=%r' % (k, v) for k, v in sorted(op.items()) if k != 'pts')
+
+
 # ----------------------------------------------------------------------------- clause: iso_limit
 
 _aniso = g11.tensors(isotropic_too=False)
@@ -801,7 +1294,7 @@ _ACC = {'accepted': 0.85}
 _REF = {'refusal': 0.12}
 
 CLAUSES = [
-    Clause('jump', oracle_jump, jump_cases, quick=6000, thorough=90000,
+    Clause('jump', oracle_jump, jump_cases, quick=5400, thorough=90000,
            min_share=dict(_ACC, nt=0.2, solver_stroh=0.24, solver_iso=0.12, solver_auto=0.13, orient_miller=0.19, mn_vec=0.27,
                           mn_str=0.11, mn_str_and_vector=0.04, ray_on_axis=0.27, b_tiny_component=0.025, int_positions=0.06,
                           ptlist=0.19, four_index=0.01, via_axes=0.06, closed_form_on_neariso=0.045, neariso_via_auto=0.008,
@@ -810,26 +1303,49 @@ CLAUSES = [
            desc='Burgers vector = displacement jump across the cut half-plane (limit at +-1e-9 r), continuity across every '
                 'other ray, invariance along the line, single point = array row = integer-typed positions, character angle, '
                 'header (m, n, xi, transform, burgers, C) against my own numbers'),
-    Clause('kinematics', oracle_kinematics, kin_cases, quick=8000, thorough=120000,
+    Clause('kinematics', oracle_kinematics, kin_cases, quick=7000, thorough=120000,
            min_share=dict(_ACC, nt=0.2, solver_stroh=0.24, solver_iso=0.13, orient_miller=0.18, pt_on_axis=0.24, ptlist=0.2,
                           b_general=0.035, b_climb=0.013, npts3=0.15, closed_form_on_neariso=0.045, neariso_via_auto=0.008,
                           neariso_via_iso=0.03, neariso_edge=0.02),
            max_share=_REF,
            desc='strain = sym grad u and div stress = 0 by 4th-order central differences (h = 1e-4 r), stress = C:strain, '
                 'symmetry, homogeneity of degree -1'),
-    Clause('energy', oracle_energy, energy_cases, quick=5000, thorough=75000,
+    Clause('energy', oracle_energy, energy_cases, quick=4500, thorough=75000,
            min_share=dict(_ACC, nt=0.18, BL=0.8, resolved=0.18, solver_stroh=0.26, iso_medium=0.16, mn_vec=0.26,
                           closed_form_on_neariso=0.045, neariso_via_auto=0.008, neariso_via_iso=0.035, neariso_edge=0.025),
            max_share=_REF,
            desc='K_tensor real symmetric positive definite, equal to the Barnett-Lothe angular integral (and to the closed '
                 'form for isotropic media); K_coeff, preln; slip-plane traction = K.b/(2 pi x)'),
-    Clause('covariance', oracle_covariance, cov_cases, quick=4000, thorough=60000,
+    Clause('covariance', oracle_covariance, cov_cases, quick=3600, thorough=60000,
            min_share=dict(_ACC, nt=0.22, rotated=0.8, both_generic=0.26, miller_vs_transform=0.2, aniso_medium=0.3,
                           closed_form_on_neariso=0.055, rotated_neariso=0.055, neariso_via_auto=0.006, neariso_edge=0.025),
            max_share=_REF,
            desc='rotating crystal (C, b) by Q and laboratory (transform, m, n, points) by R rotates u, strain, stress, K; '
                 'Miller-index orientation = the corresponding transform'),
-    Clause('iso_limit', oracle_iso_limit, limit_cases, quick=2500, thorough=37500,
+    Clause('decades', oracle_decades, g.decade_cases, quick=2500, thorough=37500,
+           min_share={'accepted': 0.85, 'nt': 0.16, 'span>=8': 0.4, 'lscale': 0.2, 'lscale_SI': 0.04, 'b_scaled': 0.1, 'tol_loose': 0.1,
+                      'tol_0.0001': 0.05, 'tol_1e-10': 0.03, 'tol_default': 0.3, 'closed_form': 0.17, 'fd_far': 0.12, 'fd_near': 0.2,
+                      'log_law': 0.4, 'npts>=6': 0.17, 'ptlist': 0.13, 'solver_stroh': 0.22, 'aniso_medium': 0.27},
+           max_share=_REF,
+           desc='ONE call of displacement / strain / stress for an array of points 1e-6 .. 1e+6 reference lengths from the line '
+                '(reference length 1e-12 .. 1e+6, Burgers vector in the same unit or not; solver tol default, 1e-4 .. 1e-10): array '
+                'call = point-by-point calls, stress = C:strain, symmetry, 1/r along every ray, logarithmic law of the displacement, '
+                'closed forms (isotropic class), finite-difference compatibility and equilibrium at one of the points, Burgers jump '
+                'at the smallest and largest radius - every comparison relative to the magnitude of the field AT THAT POINT'),
+    Clause('history', oracle_history, g.history_cases, quick=3000, thorough=45000,
+           min_share={'accepted': 0.85, 'nt': 0.3, 'applied_C': 0.3, 'stroh_C_redefined': 0.18, 'identity_stroh_C_redefined': 0.07,
+                      'applied_b': 0.1, 'applied_box': 0.025, 'applied_T': 0.025, 'op_m': 0.035, 'op_n': 0.03, 'op_again': 0.08,
+                      'op_eval': 0.08, 'op_out': 0.05, 'op_pos': 0.04, 'form_strided': 0.1, 'form_readonly': 0.12, 'form_list': 0.12,
+                      'form_tuple': 0.12, 'identity_orientation': 0.2, 'C_via_Sijkl': 0.03, 'C_via_cubic': 0.03, 'C_via_Cij9': 0.03,
+                      'solver_stroh': 0.2, 'answer_IsotropicVolterraDislocation': 0.15},
+           max_share=_REF,
+           desc='caller-side histories: arguments in every array-like form (float64, strided, Fortran / reversed, read-only, list, '
+                'tuple); solving and evaluating leave the caller\'s objects untouched; after the caller re-defines its ElasticConstants '
+                'object (Cij, Cijkl, Sij, Cij9, Sijkl setters, crystal-system methods), overwrites burgers / m / n / transform / Miller '
+                'arrays in place, re-defines its Box, builds other solutions from the same objects, evaluates elsewhere, overwrites '
+                'the position array or the returned arrays, every output of the first solution (header, K_tensor, K_coeff, preln, '
+                'character angle, p A L k / mu nu, fields) is unchanged; identity orientation in a third of the cases'),
+    Clause('iso_limit', oracle_iso_limit, limit_cases, quick=2200, thorough=37500,
            min_share={'nt': 0.22, 'both_t': 0.45, 'mn_vec': 0.28, 'orient_miller': 0.19, 'closed_form_on_neariso': 0.16,
                       'neariso_via_auto': 0.06, 'auto_stroh_on_neariso': 0.11, 'neariso_edge': 0.06, 'iso_medium': 0.27},
            desc='isotropic class and dispatcher, on exactly and on nearly isotropic media (inside the acceptance band of the '
